@@ -797,13 +797,31 @@ def r_dispatch(ctx: Ctx, rule: str):
     calls = ctx.distinct_sites(ctx.nodes(f, lambda n: ctx.is_call_to(n, "return_or_exception")))
     rep.floor(rule, "return_or_exception call in _exec_method_and_respond", len(calls), 1)
     pos_name = var_name = None
+    copy_local: List[Tuple[FuncInfo, str]] = []
     for c in calls:
         a = c.ast.args
 
         def is_kwargs(x: ast.AST) -> bool:
-            # the session's own **kwargs dictionary - directly, or handed through a helper and back (as a component of its result)
+            # the session's own **kwargs dictionary - directly, or handed through a helper and back (as a component of its result),
+            # or a copy of it (`dict(kwargs)`, `kwargs.copy()`, `{**kwargs}`) from which the positional ones are popped instead
             fr_, env_, leaf = V.trace(c.func, c.env, x)
-            return fr_ is f and not env_ and isinstance(leaf, ast.Name) and leaf.id == kw
+            if fr_ is f and not env_ and isinstance(leaf, ast.Name) and leaf.id == kw:
+                return True
+            inner = None
+            if isinstance(leaf, ast.Call) and isinstance(leaf.func, ast.Name) and leaf.func.id == "dict" and len(leaf.args) == 1 and not leaf.keywords:
+                inner = leaf.args[0]
+            elif isinstance(leaf, ast.Call) and isinstance(leaf.func, ast.Attribute) and leaf.func.attr == "copy" and not leaf.args:
+                inner = leaf.func.value
+            elif isinstance(leaf, ast.Dict) and len(leaf.keys) == 1 and leaf.keys[0] is None:
+                inner = leaf.values[0]
+            if inner is not None:
+                fr2, env2, leaf2 = V.trace(fr_, env_, inner)
+                if fr2 is f and not env2 and isinstance(leaf2, ast.Name) and leaf2.id == kw_root:
+                    for nm_, hows_ in ctx.an.scope(fr_).defs.items():
+                        if any((h_[0] == "assign" and h_[1] is leaf) or (h_[0] == "ann" and h_[2] is leaf) for h_ in hows_):
+                            copy_local.append((fr_, nm_))
+                    return True
+            return False
 
         ok = len(a) == 3 and V.is_param(f, a[0], mp) and all(isinstance(x, ast.Starred) for x in a[1:]) \
             and len(c.ast.keywords) == 1 and c.ast.keywords[0].arg is None and is_kwargs(c.ast.keywords[0].value)
@@ -841,6 +859,9 @@ def r_dispatch(ctx: Ctx, rule: str):
         kw_l = kw
         if lenv:
             kw_l = kw_root  # (after the substitution the dictionary is spelled as in the session's method again)
+        for cf_, nm_ in copy_local:
+            if cf_ is lf:
+                kw_l = nm_  # the arguments are popped from the copy that is then unpacked as the remaining keywords
         for node in ast.walk(lp):
             if isinstance(node, ast.If):
                 cond = V.canon(lf, node.test).replace(" ", "")
@@ -1427,6 +1448,92 @@ def r_executable(ctx: Ctx, rule: str) -> None:
     for n in ctx.distinct_sites(pops):
         key = ctx.vals.canon_at(n.func, n.env, n.ast.args[0]).replace(" ", "")
         rep.ob(rule, "the session looks a parsed argument up under the parameter's name", key.endswith(".name"), node=n, detail=f"key {key}")
+
+
+def r_total_indexing(ctx: Ctx, rule: str) -> None:
+    """C16 'any pool can be served': building the command surface must not raise for any class - in particular not for a member
+    with an empty docstring or a one-letter name.  Decided for the constant-index subscripts on that path: what is indexed is known
+    to be long enough (`s.split(sep, ..)[0]`, `s.partition(sep)[k]`, `<identifier>[0]`), a violation where it is known that it
+    may be empty (`s.splitlines()[0]`, `s.split()[0]` on a possibly blank string)."""
+    rep = ctx.rep
+    rep.rule(rule, "TOTAL-INDEXING: on the path that builds the commands (control.parser, internals.helpers.get_first_doc_line) a constant index "
+                   "is applied only to sequences that cannot be too short")
+    funcs = [f for f in ctx.prog.all_functions() if f.module.name == PARSER_MOD or f.qual.endswith("helpers.get_first_doc_line")]
+    n = 0
+    for f in funcs:
+        sc = ctx.an.scope(f)
+        for x in sc._own_nodes():
+            if not (isinstance(x, ast.Subscript) and isinstance(x.ctx, ast.Load)):
+                continue
+            idx = x.slice
+            if isinstance(idx, ast.UnaryOp) and isinstance(idx.op, ast.USub) and isinstance(idx.operand, ast.Constant):
+                k = -idx.operand.value if isinstance(idx.operand.value, int) else None
+            elif isinstance(idx, ast.Constant) and isinstance(idx.value, int) and not isinstance(idx.value, bool):
+                k = idx.value
+            else:
+                continue
+            if k is None:
+                continue
+            n += 1
+            recv = strip_cast(ctx.vals.resolve(f, x.value))
+            verdict: object = "info"
+            why = "receiver not classified"
+            if isinstance(recv, ast.Call) and isinstance(recv.func, ast.Attribute):
+                m = recv.func.attr
+                if m in ("split", "rsplit"):
+                    if recv.args or recv.keywords:
+                        verdict, why = (k in (0, -1)) or "info", "str.split(sep, ...) never returns an empty list"
+                    else:
+                        verdict, why = False, "str.split() without a separator returns [] for a blank string"
+                elif m in ("partition", "rpartition"):
+                    verdict, why = -3 <= k <= 2, "str.partition returns a 3-tuple"
+                elif m == "splitlines":
+                    verdict, why = False, "str.splitlines() returns [] for an empty string (a member with an empty docstring)"
+            elif isinstance(recv, ast.Attribute) and recv.attr in ("name", "__name__", "__qualname__"):
+                verdict, why = k in (0, -1), "an identifier is never empty"
+            elif isinstance(recv, (ast.Tuple, ast.List)) and not any(isinstance(e_, ast.Starred) for e_ in recv.elts):
+                verdict, why = -len(recv.elts) <= k < len(recv.elts), "display of known length"
+            rep.ob(rule, "a constant index is applied only to a sequence known to be long enough", verdict, func=f, construct=x, detail=why)
+    if not any(f.qual.endswith("helpers.get_first_doc_line") for f in funcs):
+        raise AnalysisError("anchor: internals.helpers.get_first_doc_line missing")
+    rep.floor(rule, "functions scanned on the command-building path", len(funcs), 6)
+    rep.ob(rule, "constant-index subscripts on the command-building path examined", True, construct=f"{n} subscripts in {len(funcs)} functions")
+
+
+def r_session_local(ctx: Ctx, rule: str) -> None:
+    """One server object serves every connection: what belongs to one connection (its session, reader, writer) lives in the locals of
+    that connection's callback, never in an attribute of the server - the next connection would overwrite it while this one is
+    suspended in its handshake, and this one would go on with the other client's session."""
+    rep = ctx.rep
+    srv = ctx.prog.cls("control.server.ControlServer")
+    sess = ctx.prog.cls("control.session.ControlSession")
+    rep.rule(rule, "SESSION-IS-LOCAL: in ControlServer._client_connected_cb the session whose handshake / listen is awaited is the ControlSession "
+                   "constructed by this very call (held in a local), and the callback assigns no attribute of the shared server object")
+    f = srv.methods.get("_client_connected_cb")
+    if f is None:
+        raise AnalysisError("anchor: ControlServer._client_connected_cb missing")
+    g = ctx.an.cfg(f)
+    uses = [n for n in g.nodes if n.pred and n.op == "await" and n.awaited is not None and n.awaited.kind == "pkg"
+            and any(t.cls is sess for t in n.awaited.targets)]
+    rep.floor(rule, "awaits of session coroutines in the connection callback", len(ctx.distinct_sites(uses)), 2)
+    for n in ctx.distinct_sites(uses):
+        call = strip_cast(n.ast.value)
+        recv = call.func.value if isinstance(call, ast.Call) and isinstance(call.func, ast.Attribute) else None
+        ok = None
+        detail = ""
+        if recv is not None:
+            fr, env, leaf = ctx.vals.trace(n.func, n.env, recv)
+            if isinstance(leaf, ast.Call) and ctx.an.scope(fr).callee(leaf).kind == "ctor" and ctx.an.scope(fr).callee(leaf).cls is sess:
+                ok = isinstance(recv, ast.Name) or isinstance(strip_cast(recv), ast.Name)
+            elif isinstance(leaf, ast.Attribute):
+                ok = False
+                detail = f"the session is read from `{ast.unparse(leaf)}` at the time of the call: another connection accepted meanwhile has replaced it"
+        rep.ob(rule, "the session used is the one this connection constructed (a local of the callback)", ok, node=n, detail=detail)
+    stores = [(n, e) for n in g.nodes if n.pred for e in ctx.eff.of_node(n) if e.kind in ("assign", "aug") and e.path.startswith("self.")]
+    for n, e in stores:
+        rep.ob(rule, "the connection callback assigns no attribute of the server (shared by all connections)", False, node=n,
+               detail=f"{e.path} is re-bound for every connection")
+    rep.ob(rule, "no per-connection attribute on the server object", not stores, func=f, construct="self.<attr> stores in _client_connected_cb: %d" % len(stores))
 
 
 ACTION_FIELDS = ("type", "choices", "nargs", "const", "dest", "option_strings")
